@@ -650,6 +650,18 @@ def main(out):
     L.append("def skeleton : List (String × List String) := [")
     L.append(",\n".join(f'  ("{fn}", [{", ".join(chr(34) + t + chr(34) for t in sorted(set(tags)))}])' for fn, tags in sorted(SKELETON.items())))
     L.append("]\n")
+    # the ordered, structured skeleton this program was written against (cir/skeleton_ordered.json; see bin/skeleton-snapshot)
+    import json as _json, os as _os
+    ordered = _json.load(open(_os.path.join(_os.path.dirname(_os.path.abspath(__file__)), "skeleton_ordered.json")))
+    assert set(ordered) == set(SKELETON), (sorted(set(ordered) ^ set(SKELETON)))
+    for fn, toks in ordered.items():
+        prim = {t for t in toks if t not in ("if{", "}else{", "}", "for{", "select{", "switch{", "case:", "defer{", "return")}
+        assert prim == set(SKELETON[fn]), (fn, sorted(prim ^ set(SKELETON[fn])))
+    L.append("/-- the same primitives in source order inside their control structure, as they stood when this skeleton was")
+    L.append("written / last re-validated against the Go source. -/")
+    L.append("def orderedDeclared : List (String × List String) := [")
+    L.append(",\n".join(f'  ("{fn}", [{", ".join(chr(34) + t + chr(34) for t in (toks or []))}])' for fn, toks in sorted(ordered.items())))
+    L.append("]\n")
     L.append("end WS.Gen.ConnCIR")
     text = "\n".join(L) + "\n"
     try:
